@@ -120,18 +120,35 @@ def collect():
     f["gettypeIsImportObj"] = stmts(fn(utils, "gettype")) == [
         "if module_name and cls_or_func:\n    return _import_obj(module_name, cls_or_func)",
         "raise ValueError(f'Object {cls_or_func} of module {module_name} is unknown')"]
+    # ---- the default lists (C11): what is taken from registries other packages can write to (the scikit-learn modules that
+    # all_estimators() walks, numpy.sctypeDict) is filtered by the library's own module prefix
+    tt = ast.parse((REPO / "skops/io/_trusted_types.py").read_text())
+
+    def assigned(name):
+        for n in tt.body:
+            if isinstance(n, ast.Assign) and len(n.targets) == 1 and ast.unparse(n.targets[0]) == name:
+                return ast.unparse(n.value)
+        return None
+
+    f["estimatorNamesFilteredByPrefix"] = assigned("SKLEARN_ESTIMATOR_TYPE_NAMES") == \
+        "[get_type_name(estimator_class) for _, estimator_class in all_estimators() if get_type_name(estimator_class).startswith('sklearn.')]"
+    f["scalarNamesFilteredByPrefix"] = assigned("NUMPY_DTYPE_TYPE_NAMES") == \
+        "sorted({type_name for dtype in np.sctypeDict.values() if (type_name := get_type_name(dtype)).startswith('numpy')})"
     # ---- dump side (C06, C12, C18) --------------------------------------------------------------------
     gs = fn(utils, "get_state")
     body = [ast.unparse(b) for b in gs.body if not (isinstance(b, ast.Expr) and isinstance(b.value, ast.Constant))]
     f["getStateMemoizesFirst"] = body[:1] == ["__id__ = save_context.memoize(obj=value)"] and \
         "res = _get_state(value, save_context)" in body and body.index("res = _get_state(value, save_context)") > 0
     f["idFromMemoize"] = "res['__id__'] = __id__" in body and body[-1] == "return res"
-    sc_mem = None
+    # exact bodies (the seeds C05_e / C12_e added an early `return obj_id` for "immutable" values, which a substring test accepts)
+    sc_mem = lc_mem = lc_get = None
     for n in ast.walk(utils):
         if isinstance(n, ast.ClassDef) and n.name == "SaveContext":
-            sc_mem = ast.unparse(fn(n, "memoize"))
-    f["memoizeKeepsReference"] = sc_mem is not None and "obj_id = id(obj)" in sc_mem and "self.memo[obj_id] = obj" in sc_mem \
-        and "return obj_id" in sc_mem
+            sc_mem = stmts(fn(n, "memoize"))
+        if isinstance(n, ast.ClassDef) and n.name == "LoadContext":
+            lc_mem, lc_get = stmts(fn(n, "memoize")), stmts(fn(n, "get_object"))
+    f["memoizeKeepsReference"] = sc_mem == ["obj_id = id(obj)", "if obj_id not in self.memo:\n    self.memo[obj_id] = obj", "return obj_id"]
+    f["loadMemoIsPlainDict"] = lc_mem == ["self.memo[id] = obj"] and lc_get == ["return self.memo.get(id)"]
     scipy_src = ast.unparse(ast.parse((REPO / "skops/io/_scipy.py").read_text()))
     numpy_u = ast.unparse(ast.parse(numpy_src))
     f["memberNameFromMemoize"] = "obj_id = save_context.memoize(obj)\n            f_name = f'{obj_id}.npy'" in numpy_u \
